@@ -117,15 +117,15 @@ def main():
         if flt and not re.search(flt, name):
             continue
         try:
-          try:
-            for f, old, new, idx in edits:
-                p = os.path.join(wt, f)
-                s = open(p).read()
-                s2 = replace_nth(s, old, new, idx)
-                open(p, "w").write(s2)
-          except SystemExit as e:
-            print("| %s | %s | SITE CHANGED (re-anchor the mutant): %s | | |" % (name, prop, e), flush=True)
-            continue
+            try:
+                for f, old, new, idx in edits:
+                    p = os.path.join(wt, f)
+                    s = open(p).read()
+                    s2 = replace_nth(s, old, new, idx)
+                    open(p, "w").write(s2)
+            except SystemExit as e:
+                print("| %s | %s | SITE CHANGED (re-anchor the mutant): %s | | |" % (name, prop, e), flush=True)
+                continue
             t0 = time.time()
             r = subprocess.run([os.path.join(VERIF, "check"), prop, "--tier", "quick"], cwd=VERIF,
                                env=dict(os.environ, VERIF_REPO=wt), capture_output=True, text=True)
